@@ -315,9 +315,9 @@ pub const PATTERN_POOL: &[char] = &[
     'a', 'b', 'c', '0', '1', '\u{e9}', '\u{20ac}', '\u{1F600}', '\n', ' ', '"', '-', 'x', 'a', 'b', '\n',
     // characters whose low byte is 0x0A / 0x0D without being line breaks, other Unicode line
     // separators (which must NOT count as line breaks), a byte order mark
-    '\u{10a}', '\u{4e0a}', '\u{2028}', '\u{10d}', '\0',
+    '\u{10a}', '\u{4e0a}', '\u{2028}', '\u{10d}', '\0', '\u{b}', '\u{10061}',
 ];
-pub const UNMATCHED_POOL: &[char] = &['#', '~', '\u{df}', '\u{2192}', '\r', '\t', '%', '#', '~', '\u{200a}', '\u{85}', '\u{feff}', '\u{30a}', '\0'];
+pub const UNMATCHED_POOL: &[char] = &['#', '~', '\u{df}', '\u{2192}', '\r', '\t', '%', '#', '~', '\u{200a}', '\u{85}', '\u{feff}', '\u{30a}', '\0', '\u{b}', '\u{c}', '\u{f600}', '\u{1000a}'];
 
 #[derive(Clone, Debug)]
 pub struct Alphabet {
@@ -382,6 +382,10 @@ const RAW_CLASSES: &[(&str, &[char])] = &[
     ("[\\\\\"]", &['\\', '"']),
     ("[^\\\"]", &['a', '\\']),
     ("[\"\\\\]", &['\\', '"']),
+    ("[\\u{80}-\\u{10FFFF}]", &['\u{e9}', '\u{20ac}', '\u{1F600}']),
+    ("[\\u{0}-\\u{D7FF}]", &['a', '\u{e9}', '\n']),
+    ("[^\\u{0}-\\u{FFFF}]", &['\u{1F600}', '\u{10061}']),
+    ("[a-\\u{10FFFF}]", &['b', '\u{20ac}']),
 ];
 
 fn gen_class(rng: &mut Rng, al: &Alphabet) -> Rx {
@@ -590,9 +594,12 @@ pub fn gen_config(rng: &mut Rng, al: &Alphabet, k: &Knobs) -> GenConfig {
             // sorted the way scnr sees the token types (32 bit)
             transitions.sort_by_key(|x| (x.0 as u32, x.1));
         }
-        let name = if k.fancy_names && rng.chance(1, 6) {
+        let name = if m > 0 && rng.chance(1, 12) {
+            // the conventional name of the start mode, but not at index 0
+            "INITIAL".to_string()
+        } else if k.fancy_names && rng.chance(1, 6) {
             format!("{}{}", rng.pick(FANCY_NAMES), m)
-        } else if m == 0 && rng.chance(1, 2) {
+        } else if m == 0 && rng.chance(1, 3) {
             "INITIAL".to_string()
         } else {
             format!("M{}", m)
